@@ -4,7 +4,9 @@ Tie H, two parts (Model/Job.v):
  (i)  descriptor binding: driver classes are created afresh for every case (the Job object is shared per class),
       2..3 instances with distinct settings are created / reassigned / used in every order, what the prep function
       sees as self.executable/nprocs/memory/envars and the JobInput it returns are observed and replayed in Coq;
-      the shipped XTBDriver is put through the same orders and judged by the oracle.
+      the shipped XTBDriver is put through the same orders and judged by the oracle.  Obtaining the bound job
+      (`h = d.job`, kept in a variable / captured by the lazy generator of a vectorised prepare) and using a kept one
+      (`h.prepare(..)`) are separate events (BGet/BGetCls/BPrep): several jobs of several live drivers are held side by side.
  (ii) run_local: REAL executions (the run_local function of molli/pipeline/runner.py in a forked process per case, and
       the installed `_molli_run` entry point for a sample) of JobInputs whose commands are `sh -c '...'` renderings of
       the script language of Model/Job.v: exit status, output file, external trace and scratch residue are compared with
@@ -798,7 +800,13 @@ def run(ctx, rep):
                 "environment overrides, plus seeded random scripts over 11 primitives; every case is a real run_local "
                 "execution with `sh -c` commands; non-trivial = at least one command executed; distinct by the case term. "
                 "(i) binding: every order of creating/using 2..3 driver instances x declared job settings x class attributes "
-                "x single/vectorised, fresh driver class per case; distinct by the history")
+                "x single/vectorised, fresh driver class per case; plus histories in which OBTAINING the bound job through a "
+                "driver (h = d.job, kept) and USING a kept one (h.prepare) are separate events: every interleaving of "
+                "obtain/use over 2..3 live drivers (2 drivers: creations interleaved too), directed histories with repeated "
+                "obtains through one driver / reassignment between obtain and use / class-level obtains / re-bound variables, "
+                "seeded random histories over all event kinds with up to 4 kept jobs; drivers as instances of ONE class or a "
+                "subclass each; vectorised jobs also kept as the lazy generator prepare returned; the shipped XTBDriver with "
+                "all obtain orders x all use orders; distinct by the history")
     rep.trusted += ["harness/c17.py (script renderer `sh -c`, forked run_local worker, canonicalisation of the private directory name to <cwd>, Coq literal emission)",
                     "CPython subprocess/tempfile/shlex, /bin/sh, msgpack (modelled: commands as the oracle sh_exec; TemporaryDirectory as create/remove around the body)"]
     rep.assumptions += ["commands do not touch the capture files <name>.out/.err and command names are distinct (hypotheses of C17_capture)",
